@@ -69,6 +69,11 @@ func (module *CachingEvaluator) Configure(name, configRoot string) {
 	module.minimumComplete = float32(viper.GetFloat64(configRoot + ".minimum-complete"))
 	module.allowedLag = viper.GetUint64(configRoot + ".allowed-lag")
 	cacheExpire := time.Duration(module.expireCache) * time.Second
+	if module.expireCache == 0 {
+		// goswarm reads a zero duration as "never expires", the opposite of what expire-cache = 0 asks for: results
+		// would be cached for ever. The shortest duration makes every request evaluate afresh
+		cacheExpire = time.Nanosecond
+	}
 
 	newCache, err := goswarm.NewSimple(&goswarm.Config{
 		GoodExpiryDuration: cacheExpire,
